@@ -29,7 +29,7 @@ class Contract:
     """
 
     def __init__(self, qual, params, returns=None, requires=None, ensures=None, raises=None, loops=None,
-                 modifies=(), trusted=False, properties=(), note="", decreases=None, locals=None, defaults=None, hints=None, fuel=3, axioms=(), abstractions=None, result_builder=None, shards=0, inline=False, ghost_out=None, ghost_wit=None, impl_only=False, derived_ensures=None, derived_by=(), exclude=(), fuel_post=None):
+                 modifies=(), trusted=False, properties=(), note="", decreases=None, locals=None, defaults=None, hints=None, fuel=3, axioms=(), abstractions=None, result_builder=None, shards=0, inline=False, ghost_out=None, ghost_wit=None, impl_only=False, derived_ensures=None, derived_by=(), exclude=(), fuel_post=None, globals=None, module_inv=None):
         self.qual = qual
         self.params = params
         self.returns = returns
@@ -67,6 +67,11 @@ class Contract:
         # lemmas named in derived_by (proved in lemmas/zlemmas.py on every run), not from the body
         self.derived_ensures = derived_ensures
         self.derived_by = list(derived_by)
+        # globals: module-level variables the function reads / writes ({name: type}); module_inv(c): an invariant of
+        # them that holds initially (checked: the module initialises them to an empty literal and no OTHER function of
+        # the module assigns to them), is assumed at entry and must be re-established at every exit
+        self.globals = globals or {}
+        self.module_inv = module_inv
         self.fuel_post = fuel_post  # instantiation rounds for the postcondition obligations, if they need more than `fuel`
         self.exclude = list(exclude)  # names of global axioms NOT used for this function's obligations (sound: fewer axioms)
         self.inline = inline  # callers execute the (loop-free) real body instead of using the contract
